@@ -26,6 +26,7 @@ type Mutant struct {
 	New    string
 	Expect []string // obligation keys (without property prefix); one of them must be reported
 	Note   string
+	Patch  string // alternatively: a unified diff (absolute path) applied in memory instead of Old/New
 }
 
 var mutants []Mutant
@@ -36,6 +37,9 @@ func buildMutantOverlay(repo, id string) (map[string][]byte, string) {
 	for _, m := range mutants {
 		if m.ID != id {
 			continue
+		}
+		if m.Patch != "" {
+			return applyPatchOverlay(repo, m.Patch)
 		}
 		path := filepath.Join(repo, m.File)
 		src, err := os.ReadFile(path)
@@ -63,7 +67,7 @@ func runSubprocess(prop, repo string, args ...string) (subResult, error) {
 	if err != nil {
 		return subResult{}, err
 	}
-	cmd := exec.Command(exe, append([]string{"-prop", prop, "-tier", "sub", "-repo", repo}, args...)...)
+	cmd := exec.Command(exe, append([]string{"-prop", prop, "-tier", "sub", "-repo", repo, "-verif", verifDir}, args...)...)
 	var stdout, stderr bytes.Buffer
 	cmd.Stdout = &stdout
 	cmd.Stderr = &stderr
@@ -211,4 +215,110 @@ func firstLine(s string) string {
 		return s[:i]
 	}
 	return s
+}
+
+// verifDir is the verification directory (set from the -verif flag).
+var verifDir = "/verif"
+
+// loadSeedMutants registers every kept seeded change (seeded/<id>/patch.diff)
+// as a witness mutant of its property; the obligations that must report it are
+// frozen in seeded/EXPECT.json (written when the seed was first reported).
+func loadSeedMutants(verif string) {
+	verifDir = verif
+	b, err := os.ReadFile(filepath.Join(verif, "seeded", "EXPECT.json"))
+	if err != nil {
+		return
+	}
+	var exp map[string]struct {
+		Prop   string   `json:"prop"`
+		Expect []string `json:"expect"`
+		Note   string   `json:"note"`
+	}
+	if json.Unmarshal(b, &exp) != nil {
+		return
+	}
+	ids := make([]string, 0, len(exp))
+	for id := range exp {
+		ids = append(ids, id)
+	}
+	sort.Strings(ids)
+	for _, id := range ids {
+		e := exp[id]
+		patch := filepath.Join(verif, "seeded", id, "patch.diff")
+		if _, err := os.Stat(patch); err != nil {
+			continue
+		}
+		mutants = append(mutants, Mutant{ID: "seed-" + id, Prop: e.Prop, File: "seeded/" + id + "/patch.diff", Expect: e.Expect, Note: "independent seeded change " + id + ": " + e.Note, Patch: patch})
+	}
+}
+
+// applyPatchOverlay applies a unified diff (as written by `git diff`) to the
+// files of the repository in memory. Every hunk's old text must occur exactly
+// once in its file.
+func applyPatchOverlay(repo, patch string) (map[string][]byte, string) {
+	b, err := os.ReadFile(patch)
+	if err != nil {
+		return nil, "not_applicable: cannot read " + patch
+	}
+	overlay := map[string][]byte{}
+	var file string
+	var oldL, newL []string
+	inHunk := false
+	flush := func() string {
+		if !inHunk || file == "" {
+			return ""
+		}
+		inHunk = false
+		path := filepath.Join(repo, file)
+		src, ok := overlay[path]
+		if !ok {
+			var err error
+			src, err = os.ReadFile(path)
+			if err != nil {
+				return "not_applicable: cannot read " + file
+			}
+		}
+		o, n := strings.Join(oldL, "\n")+"\n", strings.Join(newL, "\n")+"\n"
+		if len(newL) == 0 {
+			n = ""
+		}
+		if c := bytes.Count(src, []byte(o)); c != 1 {
+			return fmt.Sprintf("not_applicable: hunk context occurs %d times in %s", c, file)
+		}
+		overlay[path] = bytes.Replace(src, []byte(o), []byte(n), 1)
+		oldL, newL = nil, nil
+		return ""
+	}
+	for _, line := range strings.Split(strings.TrimRight(string(b), "\n"), "\n") {
+		switch {
+		case strings.HasPrefix(line, "diff --git "):
+			if msg := flush(); msg != "" {
+				return nil, msg
+			}
+			file = ""
+		case strings.HasPrefix(line, "+++ b/"):
+			file = strings.TrimPrefix(line, "+++ b/")
+		case strings.HasPrefix(line, "--- ") || strings.HasPrefix(line, "index ") || strings.HasPrefix(line, "new file") || strings.HasPrefix(line, "\\ No newline"):
+		case strings.HasPrefix(line, "@@"):
+			if msg := flush(); msg != "" {
+				return nil, msg
+			}
+			inHunk = true
+		case inHunk && strings.HasPrefix(line, "-"):
+			oldL = append(oldL, line[1:])
+		case inHunk && strings.HasPrefix(line, "+"):
+			newL = append(newL, line[1:])
+		case inHunk && (strings.HasPrefix(line, " ") || line == ""):
+			t := strings.TrimPrefix(line, " ")
+			oldL = append(oldL, t)
+			newL = append(newL, t)
+		}
+	}
+	if msg := flush(); msg != "" {
+		return nil, msg
+	}
+	if len(overlay) == 0 {
+		return nil, "not_applicable: empty patch"
+	}
+	return overlay, "applied"
 }
